@@ -138,11 +138,9 @@ func requiredCycle(g *tg.Graph) bool {
 	edges := map[string][]string{}
 	var collect func(from string, n *tg.Node)
 	collect = func(from string, n *tg.Node) {
-		for _, r := range n.NodeRefs() {
-			if r != n.AddProps {
-				edges[from] = append(edges[from], r)
-			}
-		}
+		m := *n
+		m.AddProps = "" // additionalProperties demands nothing
+		edges[from] = append(edges[from], m.NodeRefs()...)
 		for _, p := range n.Props {
 			if !p.Val.Optional {
 				collect(from, p.Val)
